@@ -113,7 +113,7 @@ PlansAt(dd, ss) ==
            THEN {[seg |-> ss, ele |-> 0, sub |-> 0, kind |-> "MissingRequiredSeg", local |-> TRUE]} ELSE {})
      \* a whole instance of a required loop removed (at its first segment; wrappers are no loops of the document)
      \cup (IF FN[FN[n].parent].kids[1] = n /\ FN[FN[n].parent].usage = "R" /\ ~FN[FN[n].parent].wrapper
-           THEN {[seg |-> ss, ele |-> 0, sub |-> 0, kind |-> "MissingRequiredLoop", local |-> FALSE]} ELSE {})
+           THEN {[seg |-> ss, ele |-> 0, sub |-> 0, kind |-> "MissingRequiredLoop", local |-> InSet(dd, ss)]} ELSE {})
      \cup (IF FN[n].rep > 0 /\ FN[n].rep <= 12 /\ FN[FN[n].parent].kids[1] # n
            THEN {[seg |-> ss, ele |-> 0, sub |-> 0, kind |-> "SegOverMax", local |-> InSet(dd, ss)]} ELSE {})
      \cup (IF FN[FN[n].parent].kids[1] = n /\ FN[FN[n].parent].rep > 0 /\ FN[FN[n].parent].rep <= 12 /\ ~FN[FN[n].parent].wrapper
